@@ -245,6 +245,10 @@ func (s *Sched) ParkedDesc() string {
 	return strings.Join(ps, ",")
 }
 
+// Settle waits until every other goroutine of the bubble is durably blocked or gone. Call it after set-up
+// queries and before installing the scheduler hook, so that no goroutine of the set-up reaches a hook later.
+func Settle() { synctest.Wait() }
+
 // Bubble runs f as the root of a synctest bubble. It reports whether the bubble ended with
 // goroutines still blocked (synctest's deadlock panic) and any other panic value.
 func Bubble(t *testing.T, f func()) (leftover bool, other interface{}) {
